@@ -29,6 +29,8 @@ def src_prefix():
     return os.path.join(kernel.repo_src(), 'ampycloud') + os.sep
 
 
+ACTIVE = None      # the simulation currently running in this process (read by the logical clock)
+
 WATCH_FNS = ('ncomp_from_gmm', '_setup_prms', 'metarize', 'tmp_seed', 'find_groups',
              'find_slices', 'find_layers', 'adjust_nested_dict', 'check_data_consistency')
 
@@ -170,6 +172,8 @@ class ThreadSim:
                 self.all_done.set()
 
     def run(self):
+        global ACTIVE
+        ACTIVE = self
         threads = [threading.Thread(target=self._worker, args=(i,), name=f'simworker-{i}',
                                     daemon=True) for i in range(self.n)]
         for thr in threads:
